@@ -28,15 +28,18 @@
 (* designs that TLC must reject.                                           *)
 (***************************************************************************)
 EXTENDS Integers, Sequences, FiniteSets, TLC, Json, FiniteSetsExt, SequencesExt
-CONSTANTS NChains, MaxDepth, MaxIters, Modes, Variant, Emit
+CONSTANTS NChains, MaxDepth, MaxIters, Modes, Variant, Emit,
+          AllowLoss   \* mode "all": a re-fitted source may wander off the image and is then removed before the next fit (observed in
+                      \* recorded traces of crowded noisy scenes, see Trace_IterPSF); FALSE for the noise-free replay scenes
 VARIABLES depth,    \* [1..NChains -> 1..MaxDepth]  (chosen initially, never changes)
           twin,     \* BOOLEAN: chains 1 and 2 are twins
           mode,     \* "new" / "all"
           it,       \* iterations performed (= the maxiters argument the state corresponds to)
           active,   \* FALSE once an iteration detected nothing
           blocks,   \* sequence of sets of sources
-          gid       \* [source -> group id] as written in the table
-vars == <<depth, twin, mode, it, active, blocks, gid>>
+          gid,      \* [source -> group id] as written in the table
+          gone      \* sources removed because their fit window left the image (mode "all" only)
+vars == <<depth, twin, mode, it, active, blocks, gid, gone>>
 
 Chains == 1..NChains
 Nodes == {n \in Chains \X (1..MaxDepth) : n[2] <= depth[n[1]]}
@@ -58,7 +61,7 @@ Number(P, lo) == [a \in UNION P |-> lo + Rank(CHOOSE g \in P : a \in g, P)]
 MaxGid(f) == IF DOMAIN f = {} THEN 0 ELSE Max({f[a] : a \in DOMAIN f})
 
 Init == /\ depth \in [Chains -> 1..MaxDepth] /\ twin \in BOOLEAN /\ mode \in Modes
-        /\ it = 0 /\ active = TRUE /\ blocks = <<>> /\ gid = [a \in {} |-> 0]
+        /\ it = 0 /\ active = TRUE /\ blocks = <<>> /\ gid = [a \in {} |-> 0] /\ gone = {}
 
 Report == Emit => PrintT(<<"GEN", ToJson([depth |-> depth, twin |-> twin, mode |-> mode, maxiters |-> it',
                                            blocks |-> [k \in 1..Len(blocks') |-> SetToSeq(blocks'[k])],
@@ -70,15 +73,17 @@ Iterate ==
   /\ it' = it + 1
   /\ LET new == {n \in Nodes : n[2] = Len(blocks) + 1} IN
      IF ~active \/ new = {}
-     THEN active' = FALSE /\ UNCHANGED <<blocks, gid>>          \* nothing detected: the loop ends, the table stays
+     THEN active' = FALSE /\ UNCHANGED <<blocks, gid, gone>>    \* nothing detected: the loop ends, the table stays (nothing is removed either)
      ELSE /\ active' = TRUE
-          /\ blocks' = Append(blocks, new)
-          /\ gid' = IF mode = "new" \/ Len(blocks) = 0
-                    THEN \* new sources are grouped among themselves; their group ids continue after the largest one so far
-                         gid @@ Number(Partition(new), IF Variant = "offset_by_count" THEN Cardinality(Fitted(blocks)) ELSE MaxGid(gid))
-                    ELSE \* all sources are fitted again: groups recomputed over old + new
-                         IF Variant = "regroup_new_only" THEN gid @@ Number(Partition(new), MaxGid(gid))
-                         ELSE Number(Partition(Fitted(blocks) \cup new), 0)
+          /\ \E lost \in (IF AllowLoss /\ mode = "all" /\ Len(blocks) > 0 THEN SUBSET Fitted(blocks) ELSE {{}}) :
+               /\ gone' = gone \cup lost
+               /\ blocks' = Append([k \in 1..Len(blocks) |-> blocks[k] \ lost], new)
+               /\ gid' = IF mode = "new" \/ Len(blocks) = 0
+                         THEN \* new sources are grouped among themselves; their group ids continue after the largest one so far
+                              gid @@ Number(Partition(new), IF Variant = "offset_by_count" THEN Cardinality(Fitted(blocks)) ELSE MaxGid(gid))
+                         ELSE \* all remaining sources are fitted again: groups recomputed over old + new
+                              IF Variant = "regroup_new_only" THEN gid @@ Number(Partition(new), MaxGid(gid))
+                              ELSE Number(Partition((Fitted(blocks) \ lost) \cup new), 0)
   /\ UNCHANGED <<depth, twin, mode>>
   /\ Report
 Next == Iterate
@@ -87,9 +92,9 @@ Spec == Init /\ [][Next]_vars
 (******************************* properties ********************************)
 TypeOK == it \in 0..MaxIters /\ DOMAIN gid = Fitted(blocks)
 \* the table holds exactly the sources that become detectable within `it` iterations
-TableComplete == Fitted(blocks) = {n \in Nodes : n[2] <= it}
+TableComplete == Fitted(blocks) = {n \in Nodes : n[2] <= it} \ gone
 \* iteration numbers are contiguous: block k holds the sources of depth k and is never empty
-NoGaps == \A k \in 1..Len(blocks) : blocks[k] # {} /\ \A n \in blocks[k] : n[2] = k
+NoGaps == \A k \in 1..Len(blocks) : (blocks[k] # {} \/ gone # {}) /\ \A n \in blocks[k] : n[2] = k
 \* group ids are exactly 1..G (no id is skipped or reused across blocks)
 GidsContiguous == {gid[a] : a \in DOMAIN gid} = 1..Cardinality({gid[a] : a \in DOMAIN gid})
 \* sources share a group id iff they are fitted together: mode "new" - linked within the same block; mode "all" - linked at all
@@ -97,7 +102,7 @@ GroupsAreFitGroups ==
   \A a, b \in DOMAIN gid : (gid[a] = gid[b]) <=>
       IF mode = "new" THEN a[2] = b[2] /\ b \in Reach({a}, blocks[a[2]]) ELSE b \in Reach({a}, Fitted(blocks))
 \* mode "new": what earlier iterations reported is never touched again (the table of maxiters = k is a prefix of that of k + 1)
-NewModeAppendOnly == [][mode = "new" => (\A k \in 1..Len(blocks) : blocks'[k] = blocks[k]) /\ (\A a \in DOMAIN gid : gid'[a] = gid[a])]_vars
+NewModeAppendOnly == [][mode = "new" => (\A k \in 1..Len(blocks) : blocks'[k] = blocks[k]) /\ (\A a \in DOMAIN gid : gid'[a] = gid[a]) /\ gone' = {}]_vars
 \* once the finder returned nothing the result never changes
-StoppedIsFinal == [][~active => UNCHANGED <<blocks, gid>>]_vars
+StoppedIsFinal == [][~active => UNCHANGED <<blocks, gid, gone>>]_vars
 =============================================================================
